@@ -445,6 +445,24 @@ pub struct SchedCase {
     pub crlf: bool,
     pub max_dev: usize,
     pub stateful: bool,
+    /// header layout: 0 the default two headers; 1 none; 2 repeated key + empty value + a value
+    /// containing ": "; 3 forty lines (longer than the small buffer capacities); 4 one 100-octet value
+    #[serde(default)]
+    pub hdr: u8,
+    /// text (incl. a blank line and dashes short of five) in front of the armor header line
+    #[serde(default)]
+    pub lead: bool,
+}
+
+fn sched_headers(hdr: u8) -> Vec<(String, String)> {
+    let sets = header_sets();
+    match hdr {
+        0 => sets[2].clone(),
+        1 => vec![],
+        2 => [sets[3].clone(), sets[4].clone(), sets[6].clone()].concat(),
+        3 => (0..40).map(|i| ("Comment".to_string(), format!("line {i}"))).collect(),
+        _ => sets[7].clone(),
+    }
 }
 
 #[derive(Debug, PartialEq, Eq, Clone)]
@@ -458,9 +476,10 @@ struct Obs {
 
 fn run_sched(c: &SchedCase) -> Outcome {
     let data = pattern(c.len, 2);
-    let hdrs = &header_sets()[2];
+    let hdrs = &sched_headers(c.hdr);
     let eol: &[u8] = if c.crlf { b"\r\n" } else { b"\n" };
-    let text = Arc::new(model::armor("PGP MESSAGE", &map_order(hdrs), &data, true, eol));
+    let armored = model::armor("PGP MESSAGE", &map_order(hdrs), &data, true, eol);
+    let text = Arc::new(if c.lead { [&b"some text\n\n-- not yet ----\n"[..], &armored[..]].concat() } else { armored });
     let want_headers = to_map(hdrs);
     let horizon = 8 * text.len() + 256;
     let bounds = Explore {
@@ -684,7 +703,17 @@ pub fn check(ctx: &Ctx) {
     } else {
         &[0, 1, 2, 3, 4, 5, 46, 47, 48, 49, 50, 95, 96, 97, 143, 144, 145, 767, 768, 769, 770, 1536, 1600, 4000]
     };
+    let layouts: Vec<(u8, bool)> = if quick {
+        vec![(0, false), (1, false), (2, true), (3, false)]
+    } else {
+        (0..5u8).flat_map(|h| [(h, false), (h, true)]).collect()
+    };
     for &len in slens {
+      for &(hdr, lead) in &layouts {
+        // the layouts other than the default one on the short bodies
+        if hdr != 0 && len > if quick { 49 } else { 145 } {
+            continue;
+        }
         for crlf in [false, true] {
             for cap in [1usize, 5, 64, 8192] {
                 for consumer in [
@@ -705,6 +734,8 @@ pub fn check(ctx: &Ctx) {
                             crlf,
                             max_dev: 0,
                             stateful: false,
+                            hdr,
+                            lead,
                         });
                     }
                     // deviation bounded (every single deviation incl. a source fault at every call)
@@ -721,18 +752,21 @@ pub fn check(ctx: &Ctx) {
                             uniform: None,
                             faults: true,
                             crlf,
-                            max_dev: if len <= 49 && !quick { 2 } else { 1 },
+                            max_dev: if len <= 49 && !quick && hdr == 0 { 2 } else { 1 },
                             stateful: false,
+                            hdr,
+                            lead,
                         });
                     }
                 }
             }
         }
+      }
     }
     ctx.run_space(
         "read_schedules",
         true,
-        "E1: Dearmor<BufReader(cap) over scripted source>: uniform 1/2/3/7-byte sources, all executions with <=1 (thorough: <=2 for short inputs) deviation from the default answer incl. an injected source error at every call, oracle: same (data,type,headers,checksum) / error surfaces",
+        "E1: Dearmor<BufReader(cap) over scripted source> for 5 header layouts (none, two, repeated / empty / colon-carrying values, forty lines, one long value) with and without leading text in front of the armor: uniform 1/2/3/7-byte sources, all executions with <=1 (thorough: <=2 for short inputs) deviation from the default answer incl. an injected source error at every call, oracle: same (data,type,headers,checksum) / error surfaces",
         sc.into_par_iter(),
         run_sched,
     );
